@@ -27,8 +27,11 @@ CHECKS = {
          "Partial: 'in bounded time' is a watchdog (0.7 s) in family sess (real Frontend against the real, still-serving BackendReqHandler; this is how F3 was found and is now checked) and 'the reply suffices for the call to return' in the session model; no liveness theorem. Trusted base as C01/C04.",
          "Coq proof (soundness lemmas of the receive paths) + differential correspondence", "DESIGN.md section 7 C03"),
  "C06": ("Theorems (Props/C06.v): for every byte stream and segmentation, recv_reply / wait_for_ack succeed only if the consumed bytes are a header-valid REPLY with the request's code, no descriptors, valid body (and zero status for acks). Correspondence: family fe replays, for every operation, the conformant reply mutated field by field (code, each flag bit, version, size, body, 0..3 descriptors, truncation, garbage, silence) against the real Frontend; Spec/FeSpec.v flags any accepted non-reply.",
-         "Partial: the proxy, GPU proxy and the frontend's server for backend-initiated requests are not yet covered (planned with C18). The size field of fixed-size replies is not compared by the code; the property does not list it and the check does not demand it. Trusted base as C01.",
+         "Partial: the GPU proxy is not covered. The backend-to-frontend proxy (family proxy: acknowledgements mutated field by field) and the frontend's server for backend-initiated requests (family fsrv: arbitrary streams and descriptor counts; handler invoked only for well-formed requests with exactly the prescribed descriptor, never for a message marked REPLY) are covered by hand models + correspondence. The size field of fixed-size replies is not compared by the code; the property does not list it and the check does not demand it. Trusted base as C01.",
          "Coq proof (soundness of accept conditions over the hand model) + exhaustive-by-field mutation correspondence", "DESIGN.md section 7 C06"),
+ "C18": ("Theorems (Props/C18.v) over the hand models of the Backend proxy and FrontendReqHandler: the acknowledgement carries the handler's value, resp. 2^64-errno, resp. 2^64-EINVAL; at most one handler invocation and one acknowledgement per request for every input; without REPLY_ACK nothing is written and nothing awaited; with REPLY_ACK the proxy call succeeds only on a genuine zero acknowledgement; shared-object / shmem requests are refused silently until enabled. Correspondence: family psess (real proxy against real server, recording handler: equal arguments, same file by device+inode, success iff handler returned 0), fsrv and proxy (raw peers).",
+         "Partial: hand models tied by correspondence; errno i32::MIN (checked negation would overflow) is outside the generated errno classes; 'k-th acknowledgement answers k-th request' follows from at-most-one-ack-per-request plus in-order serving and is exercised by multi-request histories in fsrv, not stated as a separate theorem. The GPU proxy is not covered.",
+         "Coq proof (model lemmas, all inputs) + differential correspondence incl. real-proxy/real-server sessions", "DESIGN.md section 7 C18"),
 }
 m = {
  "version": 1,
